@@ -179,7 +179,7 @@ Proof.
   intros Hw H. unfold f32_of_bits in H.
   assert (S0: f32_sign w = 0%Z) by (unfold f32_sign; apply Z.div_small; lia).
   rewrite S0 in H. cbn [Z.eqb] in H.
-  destruct (f32_exp w =? 255)%Z; [discriminate|]. inversion H; subst; clear H.
+  destruct (f32_exp w =? 255)%Z; [discriminate|]. injection H as <-.
   rewrite Qred_correct.
   assert (M: (0 <= f32_man w)%Z) by (unfold f32_man; apply Z.mod_pos_bound; lia).
   destruct (f32_exp w =? 0)%Z; apply scale2_sign; lia.
@@ -190,7 +190,7 @@ Lemma f32_zero_iff w v : (0 <= w < 2 ^ 32)%Z -> f32_of_bits w = Some v ->
   (v == 0 <-> (w mod 2 ^ 31 = 0)%Z).
 Proof.
   intros Hw H. unfold f32_of_bits in H.
-  destruct (f32_exp w =? 255)%Z eqn:E255; [discriminate|]. inversion H; subst; clear H.
+  destruct (f32_exp w =? 255)%Z eqn:E255; [discriminate|]. injection H as <-.
   rewrite Qred_correct.
   assert (M: (0 <= f32_man w < 2 ^ 23)%Z) by (unfold f32_man; apply Z.mod_pos_bound; lia).
   assert (D: (w mod 2 ^ 31 = 2 ^ 23 * f32_exp w + f32_man w)%Z).
@@ -222,7 +222,7 @@ Proof.
   assert (Mn: f32_man (w + 2 ^ 31) = f32_man w).
   { unfold f32_man. replace (w + 2 ^ 31)%Z with (w + 256 * 2 ^ 23)%Z by lia. apply Z.mod_add; lia. }
   rewrite S1, E, Mn. rewrite S0 in H. cbn [Z.eqb] in *.
-  destruct (f32_exp w =? 255)%Z; [discriminate|]. inversion H; subst; clear H.
+  destruct (f32_exp w =? 255)%Z; [discriminate|]. injection H as <-.
   eexists; split; [reflexivity|]. rewrite !Qred_correct. reflexivity.
 Qed.
 
